@@ -16,6 +16,7 @@ WT = "/tmp/wt-mutsweep"
 args = sys.argv[1:]
 per_func, only, out = 4, None, os.path.join(VERIF, "seeded", "mutation-sweep.json")
 part = (0, 1)
+seed = 20260926
 while args:
     a = args.pop(0)
     if a == "--per-func":
@@ -24,6 +25,8 @@ while args:
         only = set(args.pop(0).split(","))
     elif a == "--out":
         out = args.pop(0)
+    elif a == "--seed":
+        seed = int(args.pop(0))
     elif a == "--part":  # k/n: every n-th target starting at k (parallel sweeps in separate worktrees)
         k, n = args.pop(0).split("/")
         part = (int(k), int(n))
@@ -31,7 +34,7 @@ while args:
 
 # function -> (file, [properties]) from the anchors' mechanism lists (hand-normalised to real paths)
 T = [
- ("internal/flight/flight12/flight3handler.go", ["flight3Parse", "handleResumption"], ["C01", "C03", "C04", "C14", "C11"]),
+ ("internal/flight/flight12/flight3handler.go", ["flight3Parse", "handleResumption"], ["C01", "C03", "C04", "C14", "C11", "C02"]),
  ("internal/flight/flight12/flight4handler.go", ["flight4Parse", "flight4Generate"], ["C01", "C03", "C04", "C14"]),
  ("internal/flight/flight12/flight4bhandler.go", ["flight4bParse"], ["C04", "C14"]),
  ("internal/flight/flight12/flight5handler.go", ["flight5Parse", "initializeCipherSuite"], ["C03", "C04", "C01"]),
@@ -51,13 +54,13 @@ T = [
  ("pkg/crypto/ciphersuite/ciphersuite.go", ["generateAEADAdditionalData", "generateAEADAdditionalDataCID", "decrypt", "encrypt"], ["C05", "C10", "C08"]),
  ("pkg/crypto/prf/prf.go", ["PHash", "MasterSecret", "ExtendedMasterSecret", "GenerateEncryptionKeys", "prfVerifyData"], ["C10"]),
  ("state.go", ["serialize", "deserialize", "generateInternalState", "generateState", "ExportKeyingMaterial"], ["C19", "C09", "C07"]),
- ("internal/config/util.go", ["SelectVersion", "SupportedVersionsRange"], ["C11"]),
+ ("internal/config/util.go", ["SelectVersion", "SupportedVersionsRange"], ["C11", "C02"]),
  ("pkg/protocol/recordlayer/recordlayer.go", ["UnpackDatagram", "ContentAwareUnpackDatagram"], ["C18", "C08"]),
  ("pkg/protocol/recordlayer/recordlayer_13.go", ["UnpackDatagram13", "unpackCiphertextDatagramRecord"], ["C18", "C08"]),
  ("pkg/protocol/handshake/message_client_hello.go", ["Unmarshal"], ["C18"]),
  ("pkg/protocol/handshake/message_certificate.go", ["Unmarshal"], ["C18"]),
  ("pkg/protocol/ack.go", ["Unmarshal"], ["C18"]),
- ("conn.go", ["prepareLegacyPacket", "legacyReplayMarker", "handleApplicationDataRecord", "protectedReplayMarker"], ["C05", "C06", "C08"]),
+ ("conn.go", ["prepareLegacyPacket", "legacyReplayMarker", "handleApplicationDataRecord", "protectedReplayMarker"], ["C05", "C06", "C08", "C20"]),
  ("conn.go", ["validateLegacyCID", "validateLegacyCIDPresence", "unmarshalCiphertextRecord"], ["C05", "C15"]),
  ("conn.go", ["openCiphertextRecord", "commitLocalKeyUpdate", "validateNextWriteGeneration"], ["C20", "C06"]),
  ("conn.go", ["nextLocalSequenceNumber", "fragmentHandshake"], ["C09", "C12"]),
@@ -113,7 +116,7 @@ def candidates(lines, lo, hi):
 
 
 def main():
-    rnd = random.Random(20260926)
+    rnd = random.Random(seed)
     sh("git -C /repo worktree remove --force %s" % WT)
     rc, o = sh("git -C /repo worktree add -q --detach %s HEAD" % WT)
     if rc != 0:
@@ -122,6 +125,9 @@ def main():
     if os.path.exists(out):
         results = json.load(open(out)).get("mutants", [])
     done = {(r["file"], r["line"], r["op"]) for r in results}
+    first = os.path.join(VERIF, "seeded", "mutation-sweep.json")
+    if os.path.exists(first):
+        done |= {(r["file"], r["line"], r["op"]) for r in json.load(open(first)).get("mutants", [])}
     env = dict(os.environ, VERIF_REPO=WT, VERIF_EVIDENCE_DIR="/var/tmp/verif-mutsweep-evidence-%d" % part[0], VERIF_CASE_TIMEOUT="60")
     try:
         for (f, names, props) in T[part[0]::part[1]]:
